@@ -41,8 +41,16 @@ def doc_b():
             PORTS, instances=[], bindings=[]))
 
 
-DOCS = {'A': doc_a, 'B': doc_b}
-ENC = {'A': ['My', 'C'], 'B': ['C']}
+def doc_a2():
+    """Same declarations (same fully qualified names) as document A, different definitions."""
+    i1 = {'events': I1['events'] + [dzn.event('More', 'out', ['void'], [dzn.formal('m', ['T'], 'in')])]}
+    return shell.decl('extern', 'T', {'value': 'std::string'}) + shell.decl('enum', 'Res', {'fields': ['Ok', 'No', 'Busy']}, ['My']) + \
+        shell.decl('interface', 'I1', i1, ['My']) + shell.decl('interface', 'I2', I2, ['My']) + \
+        shell.decl('component', 'C', PORTS, ['My'])
+
+
+DOCS = {'A': doc_a, 'B': doc_b, 'A2': doc_a2}
+ENC = {'A': ['My', 'C'], 'B': ['C'], 'A2': ['My', 'C']}
 MC = {'port': 'p1', 'claim': 'Claim', 'grant': ['Ok'], 'release': 'Release'}
 S = shell.sel
 
@@ -180,6 +188,16 @@ def child_main():
         shared = adv.Builder()
     for item in job['jobs']:
         doc = item['doc']
+        if item.get('churn'):
+            # parse, build, drop: the parsed model is garbage before the next one is created (address reuse)
+            fct = _quiet(shell.parse, DOCS[doc]())
+            evt = _quiet(build_event, doc, fct, item['desc'], dict(job['env'], order=item.get('order'), churn=True),
+                         item.get('order'), shared)
+            del fct
+            import gc  # pylint: disable=import-outside-toplevel
+            gc.collect()
+            print(json.dumps(evt), flush=True)
+            continue
         if item.get('fresh_parse') or doc not in parsed:
             parsed[doc] = _quiet(shell.parse, DOCS[doc]())
         evt = _quiet(build_event, doc, parsed[doc], item['desc'], dict(job['env'], order=item.get('order')),
@@ -275,6 +293,13 @@ def check_c08(tier, seed):
     for doc in ('A', 'B'):
         for name in ('sts', 'mts', 'named', 'mc', 'prefixed', 'prefixed-alias', 'bad-build'):
             jobs.append({'doc': doc, 'desc': named_cfg(name, doc), 'order': None})
+    # models parsed, built and dropped in alternation: documents A and A2 declare the same names differently
+    for k in range(24 if tier == 'quick' else 120):
+        doc = 'A' if k % 2 == 0 else 'A2'
+        jobs.append({'doc': doc, 'desc': named_cfg('mts' if k % 3 else 'named', doc), 'order': None, 'churn': True})
+    # text that is not in Unicode normal form C (hash must be the MD5 of the UTF-8 bytes as they are)
+    for text in ('Zoe\u0308 A\u030a', 'Unit: \u212b \u2126 \u212a', 'caf\u00e9 \u1e9b\u0323'):
+        jobs.append({'doc': 'A', 'desc': dict(named_cfg('mts', 'A'), copyright=text, creator='by ' + text), 'order': None})
     seeds = [0, 1, 2, 3, 7, 42, 1234, 99999] if tier == 'quick' else list(range(24)) + [42, 1234, 99999, 4294967295, 31337, 65536, 777, 2024]
     events = run_children([({'seed': s, 'pid': 'child', 'builder': 'shared' if n % 2 else 'fresh'}, jobs)
                            for n, s in enumerate(seeds)])
